@@ -93,7 +93,7 @@ def step (s : St) (kind : String) (args impl : List String) : Option (St × Step
     match pureMismatch s.core.t args with
     | some n =>
       if !muted then
-        if impl = ["ok"] then
+        if impl.head? = some "ok" then
           pf := pf ++ [s!"side=impl key=mismatch-write-accepted {sp args} returned ok although no stream hashes to {n}"]
         pending := some n
     | none => pure ()
